@@ -203,6 +203,13 @@ func RunProperty(id, tier string) int {
 		}
 		resetLimits()
 		startWatchdog()
+		curUnit := us.Kind + "/" + us.Func
+		hardAbort = func(reason string) {
+			f := writeReplay(curUnit, map[string]interface{}{"property": id, "obligation": curUnit + "/generate", "verifier_output": reason,
+				"note": "obligations for this unit could not be generated from the current source within the verifier's resources; the proof that held on the pinned tree no longer goes through"})
+			fmt.Printf("VIOLATION property=%s replay=%s obligation=%s/generate (%s) no-failing-input-found\n", id, f, curUnit, reason)
+			os.Exit(1)
+		}
 		x := NewExec(prog, opt, notes)
 		x.deadline = time.Now().Add(unitTimeLimit)
 		r := &unitRun{spec: us, x: x}
@@ -337,6 +344,7 @@ func RunProperty(id, tier string) int {
 		}
 		SetIntMode(false) // the falsifier uses exact machine arithmetic
 		fx := NewExec(prog, fopt, NewNotes())
+		fx.deadline = time.Now().Add(90 * time.Second)
 		var ferr error
 		func() {
 			defer func() {
